@@ -3,11 +3,12 @@ package eng
 import (
 	"fmt"
 	"go/ast"
-	"os"
-	"time"
 	"go/types"
+	"os"
+	"runtime/debug"
 	"sort"
 	"strings"
+	"time"
 
 	"golang.org/x/tools/go/ssa"
 )
@@ -197,15 +198,15 @@ func (e *Engine) evalSpecTerm(cl *Clause, rc *rootCtx, st *State, extra map[stri
 // Root verification of one function against its contract
 
 type FuncResult struct {
-	Key        string
-	Spec       *FuncSpec
-	Obligs     []*Oblig
-	Paths      int
-	Returns    int
-	Trivial    int
-	Abstracted []string
-	Err        string // out-of-subset / engine error
-	Used       []string
+	Key             string
+	Spec            *FuncSpec
+	Obligs          []*Oblig
+	Paths           int
+	Returns         int
+	Trivial         int
+	Abstracted      []string
+	Err             string // out-of-subset / engine error
+	Used            []string
 	SkippedThorough []string
 }
 
@@ -249,6 +250,9 @@ func (e *Engine) VerifyFunc(key string) (res *FuncResult) {
 				panic(r)
 			}
 			res.Err = fmt.Sprintf("engine panic: %v", r)
+			if os.Getenv("DGV_STACK") != "" {
+				res.Err += "\n" + string(debug.Stack())
+			}
 		}
 	}()
 	st := &State{heap: c.InitialHeap("0")}
@@ -319,6 +323,14 @@ func (e *Engine) VerifyFunc(key string) (res *FuncResult) {
 	if spec.Trusted {
 		return
 	}
+	definedHits := map[string]int{}
+	defer func() {
+		for i, en := range spec.Ensures {
+			if en.Defined && definedHits[clauseName(en, i)] == 0 && res.Err == "" && !(en.Thorough && e.Tier != "thorough") {
+				res.Err = "spec: `ensures defined " + clauseName(en, i) + "` names identifiers that are defined at no return point"
+			}
+		}
+	}()
 	onRet := func(st2 *State, rets []Value) {
 		rc.returns++
 		e.curExt = st2.ext
@@ -339,7 +351,30 @@ func (e *Engine) VerifyFunc(key string) (res *FuncResult) {
 				rc.skippedThorough[clauseName(en, i)] = true
 				continue
 			}
-			goal, facts := e.clauseGoal(post, en)
+			var goal *Term
+			var facts []*QFact
+			if en.Defined {
+				// a clause over the function's own locals: only where they exist
+				ok := func() (ok bool) {
+					defer func() {
+						if r := recover(); r != nil {
+							if u, isU := r.(Unsupported); isU && strings.Contains(u.Msg, "unknown identifier") {
+								ok = false
+								return
+							}
+							panic(r)
+						}
+					}()
+					goal, facts = e.clauseGoal(post, en)
+					return true
+				}()
+				if !ok {
+					continue
+				}
+				definedHits[clauseName(en, i)]++
+			} else {
+				goal, facts = e.clauseGoal(post, en)
+			}
 			s3 := st2
 			if len(facts) > 0 {
 				s3 = st2.clone()
@@ -659,6 +694,9 @@ func (e *Engine) verifyLemma(key string, spec *FuncSpec) (res *FuncResult) {
 				panic(r)
 			}
 			res.Err = fmt.Sprintf("engine panic: %v", r)
+			if os.Getenv("DGV_STACK") != "" {
+				res.Err += "\n" + string(debug.Stack())
+			}
 		}
 	}()
 	st := &State{heap: c.InitialHeap("0")}
